@@ -53,6 +53,7 @@ typedef struct tag_TInputTag {
     StringList   Params;
     LongInt      LineCnt, LineZ;
     StringRecPtr Lines, LineRun;
+    LongInt*     LineNums; /* REPT/IRP/IRPC/WHILE: source line of each body line, relative to StartLine */
     String       SpecNameStr, SaveAttr, SaveLabel, AllArgs;
     tStrComp     SpecName;
     ShortString  NumArgs;
